@@ -169,6 +169,25 @@ func txsOf(n uint64) uint64 {
 	return pTxs
 }
 
+// twoLogs: every transaction emits two logs, the first from token0 and the
+// second from token1 (log indexes 2i+1 and 2i+2)
+var twoLogs bool
+
+func mkLog2(n, i, j uint64) map[string]any {
+	l := mkLog(n, i)
+	l["address"] = []string{token0, token1}[j]
+	l["logIndex"] = hx(2*i + 1 + j)
+	l["data"] = "0x" + fmt.Sprintf("%064x", 5000+100*n+10*i+j)
+	return l
+}
+
+func logsOfTx(n, i uint64) []any {
+	if twoLogs {
+		return []any{mkLog2(n, i, 0), mkLog2(n, i, 1)}
+	}
+	return []any{mkLog(n, i)}
+}
+
 func mkLog(n, i uint64) map[string]any {
 	return map[string]any{
 		"address": logAddr(i), "topics": []string{transferSig, word(pat(0xf0, n, i, 20)), word(pat(0xd0, n, i, 20))},
@@ -206,7 +225,7 @@ func mkReceipts(n uint64) []any {
 		rs = append(rs, map[string]any{
 			"blockHash": pat(0xb0, n>>8, n, 32), "blockNumber": hx(n), "transactionHash": pat(0xc0, n, i, 32), "transactionIndex": hx(i), "type": "0x2",
 			"from": pat(0xf0, n, i, 20), "to": pat(0xd0, n, i, 20), "status": "0x1", "gasUsed": hx(21000 + 100*n + i),
-			"effectiveGasPrice": hx(31000000000 + i), "contractAddress": pat(0xca, n, i, 20), "logs": []any{mkLog(n, i)},
+			"effectiveGasPrice": hx(31000000000 + i), "contractAddress": pat(0xca, n, i, 20), "logs": logsOfTx(n, i),
 		})
 	}
 	return rs
@@ -238,17 +257,35 @@ func parseNum(raw json.RawMessage) uint64 {
 	return n
 }
 
+// nodeHead > 0: a lagging node that has not seen the blocks above nodeHead
+// (null for blocks, receipts and traces above it; eth_getLogs silently
+// returns the logs of the part of the range it knows)
+var nodeHead uint64
+
 func answer(r rpcReq) map[string]any {
 	res := map[string]any{"jsonrpc": "2.0", "id": r.ID}
+	unseen := func(n uint64) bool { return nodeHead > 0 && n > nodeHead }
 	switch r.Method {
 	case "eth_getBlockByNumber":
 		var full bool
 		json.Unmarshal(r.Params[1], &full)
-		res["result"] = mkBlock(parseNum(r.Params[0]), full)
+		if n := parseNum(r.Params[0]); unseen(n) {
+			res["result"] = nil
+		} else {
+			res["result"] = mkBlock(n, full)
+		}
 	case "eth_getBlockReceipts":
-		res["result"] = mkReceipts(parseNum(r.Params[0]))
+		if n := parseNum(r.Params[0]); unseen(n) {
+			res["result"] = nil
+		} else {
+			res["result"] = mkReceipts(n)
+		}
 	case "trace_block":
-		res["result"] = mkTraces(parseNum(r.Params[0]))
+		if n := parseNum(r.Params[0]); unseen(n) {
+			res["result"] = nil
+		} else {
+			res["result"] = mkTraces(n)
+		}
 	case "eth_getLogs":
 		var f struct {
 			From    string   `json:"fromBlock"`
@@ -259,18 +296,20 @@ func answer(r rpcReq) map[string]any {
 		from, _ := strconv.ParseUint(strings.TrimPrefix(f.From, "0x"), 16, 64)
 		to, _ := strconv.ParseUint(strings.TrimPrefix(f.To, "0x"), 16, 64)
 		logs := []any{}
-		for n := from; n <= to; n++ {
+		for n := from; n <= to && !unseen(n); n++ {
 			for i := uint64(0); i < txsOf(n); i++ {
-				if nodeHonourAddr && len(f.Address) > 0 {
-					keep := false
-					for _, a := range f.Address {
-						keep = keep || strings.EqualFold(a, logAddr(i))
+				for _, l := range logsOfTx(n, i) {
+					if nodeHonourAddr && len(f.Address) > 0 {
+						keep := false
+						for _, a := range f.Address {
+							keep = keep || strings.EqualFold(a, l.(map[string]any)["address"].(string))
+						}
+						if !keep {
+							continue
+						}
 					}
-					if !keep {
-						continue
-					}
+					logs = append(logs, l)
 				}
-				logs = append(logs, mkLog(n, i))
 			}
 		}
 		res["result"] = logs
